@@ -44,13 +44,13 @@ func (fr *frame) loopEnv(st *PState, b *ssa.BasicBlock) *SpecEnv {
 		}
 	}
 	// iterators and ranges in scope
-	for v, x := range st.env {
+	for _, it := range st.Iters() {
+		vars["it_idx"] = st.cells[it.IdxID]
+		vars["it_n"] = it.N
+		vars["it_seq"] = it.Seq
+	}
+	for _, x := range st.env {
 		switch it := x.(type) {
-		case *IterVal:
-			_ = v
-			vars["it_idx"] = st.cells[it.IdxID]
-			vars["it_n"] = it.N
-			vars["it_seq"] = it.Seq
 		case *RangeVal:
 			vars["rng_idx"] = st.cells[it.IdxC]
 			vars["rng_n"] = it.N
@@ -163,12 +163,13 @@ func (fr *frame) havocLoop(st *PState, b *ssa.BasicBlock, ord int) {
 		st.trace = st.Fresh("trace_loop", "(Array Int Ev)")
 	}
 	// iterator / range positions advance inside loops
+	for _, it := range st.Iters() {
+		nv := st.Fresh("itidx_loop", SInt)
+		st.Assume(And(App(SBool, "<=", IntLit(0), nv), App(SBool, "<=", nv, it.N)))
+		st.cells[it.IdxID] = nv
+	}
 	for _, x := range st.env {
 		switch it := x.(type) {
-		case *IterVal:
-			nv := st.Fresh("itidx_loop", SInt)
-			st.Assume(And(App(SBool, "<=", IntLit(0), nv), App(SBool, "<=", nv, it.N)))
-			st.cells[it.IdxID] = nv
 		case *RangeVal:
 			nv := st.Fresh("rngidx_loop", SInt)
 			st.Assume(And(App(SBool, "<=", IntLit(0), nv), App(SBool, "<=", nv, it.N)))
@@ -387,5 +388,29 @@ func rootAlloc(v ssa.Value) (*ssa.Alloc, bool) {
 		default:
 			return nil, false
 		}
+	}
+}
+
+// assertSteps checks the per-iteration clauses of a loop at the back edge: old() refers to the state at the
+// start of this iteration (after the invariants were assumed).
+func (fr *frame) assertSteps(st *PState, b *ssa.BasicBlock, ord int) {
+	tc := fr.top
+	steps := fr.contract.Steps[ord]
+	if len(steps) == 0 {
+		return
+	}
+	snap := st.loopSnap[ord]
+	if snap == nil {
+		bail("loop %d: no iteration snapshot", ord)
+	}
+	env := fr.loopEnv(st, b)
+	env.old = snap
+	for i, c := range steps {
+		t, err := env.TrBool(c.Expr)
+		if err != nil {
+			bail("loop %d step %q: %v", ord, c.Src, err)
+		}
+		tc.addObl(&Obligation{Name: fmt.Sprintf("%s/%s/step:loop%d.%d", ShortName(tc.fn.String()), c.Label, ord, i+1), Func: tc.fn.String(), Label: c.Label,
+			Kind: "step", Decls: append([]string(nil), st.decls...), PC: append([]T(nil), st.pc...), Goal: t, Src: "step " + c.Src})
 	}
 }
